@@ -1899,8 +1899,10 @@ mod trait_handlers;
 
 use std::collections::HashMap;
 
+#[cfg(any(not(magiclen_educe_verif), proc_macro))]
 use proc_macro::TokenStream;
 use supported_traits::Trait;
+#[cfg_attr(all(magiclen_educe_verif, not(proc_macro)), allow(unused_imports))]
 use syn::{
     parse::{Parse, ParseStream},
     parse_macro_input,
@@ -2115,6 +2117,7 @@ fn derive_input_handler(ast: DeriveInput) -> syn::Result<proc_macro2::TokenStrea
     Ok(token_stream)
 }
 
+#[cfg(any(not(magiclen_educe_verif), proc_macro))]
 #[proc_macro_derive(Educe, attributes(educe))]
 pub fn educe_derive(input: TokenStream) -> TokenStream {
     struct MyDeriveInput(proc_macro2::TokenStream);
@@ -2132,4 +2135,27 @@ pub fn educe_derive(input: TokenStream) -> TokenStream {
     let derive_input = parse_macro_input!(input as MyDeriveInput);
 
     derive_input.0.into()
+}
+
+/// Verification hook (rlib mode): the derive entry point as an ordinary function over `proc_macro2` tokens.
+#[cfg(all(magiclen_educe_verif, not(proc_macro)))]
+pub fn educe_verif_expand(input: proc_macro2::TokenStream) -> syn::Result<proc_macro2::TokenStream> {
+    derive_input_handler(syn::parse2::<DeriveInput>(input)?)
+}
+
+/// Verification hook (proc-macro mode): runs the derive entry point inside the compiler and returns `"OK <tokens>"`, `"ERR <message>"` or `"PANIC"` as a string literal.
+#[cfg(all(magiclen_educe_verif, proc_macro))]
+#[proc_macro]
+pub fn educe_verif_expand_to_string(input: TokenStream) -> TokenStream {
+    let result = std::panic::catch_unwind(std::panic::AssertUnwindSafe(|| {
+        syn::parse::<DeriveInput>(input).and_then(derive_input_handler)
+    }));
+
+    let s = match result {
+        Ok(Ok(token_stream)) => format!("OK {token_stream}"),
+        Ok(Err(error)) => format!("ERR {error}"),
+        Err(_) => String::from("PANIC"),
+    };
+
+    quote::quote!(#s).into()
 }
